@@ -164,6 +164,11 @@ def gen_one_qubit(rng, case):
     kind = case % 8
     ph = pick_phase(rng)
     if kind == 0:
+        if rng.random() < 0.3:
+            t = float(rng.uniform(-math.pi, math.pi))
+            c, s_ = math.cos(t), math.sin(t)
+            refl = rng.random() < 0.3
+            return np.array([[c, s_ if refl else -s_], [s_, -c if refl else c]]), "real-dtype:rotation"  # float64 input
         return L.haar_unitary(rng, 2), "haar"
     if kind == 1:
         m = W.CLIFFORD_1Q[(case // 8) % len(W.CLIFFORD_1Q)]
@@ -223,7 +228,16 @@ def degenerate_values(rng, d, unit=True, real=False):
 
 def gen_normal(rng, case):
     d = [2, 4, 3, 8, 4, 2][case % 6]
-    flavour = ["unitary", "hermitian", "normal"][(case // 6) % 3]
+    flavour = ["unitary", "hermitian", "normal", "real-orthogonal"][(case // 6) % 4]
+    if flavour == "real-orthogonal":
+        # a normal matrix handed over in a real dtype (float64, or int for signed permutations): its eigenvalues are
+        # still complex in general
+        o = random_orthogonal(rng, d)
+        if rng.random() < 0.3 and d >= 2:
+            o = np.roll(np.eye(d), int(rng.integers(1, d)), axis=0)  # a cyclic shift
+        if np.all(o == np.round(o)) and rng.random() < 0.5:
+            o = o.astype(int)
+        return o, flavour, d
     v = frame(rng, d)
     if flavour == "unitary":
         lam = degenerate_values(rng, d, unit=True)
@@ -303,6 +317,11 @@ def gen_n_qubit(rng, case, n):
     if kind == 3:
         return np.diag(np.exp(1j * rng.uniform(-math.pi, math.pi, D))).astype(complex), "diagonal"
     if kind == 4:
+        r = rng.random()
+        if r < 0.35:
+            return np.roll(np.eye(D), int(rng.integers(1, D)), axis=0), "real-dtype:cyclic-shift"  # float64 input
+        if r < 0.6:
+            return random_orthogonal(rng, D), "real-dtype:orthogonal"  # float64 input with complex eigenvalues
         return np.eye(D, dtype=complex)[rng.permutation(D)], "permutation"
     if kind == 5:
         ms = [L.haar_unitary(rng, 2) for _ in range(n)]
